@@ -292,6 +292,11 @@ def addDelegateStep (s : State) (o amt : Nat) (dep : Bool) : State × Out :=
   | none => (s, .noOracle)
   | some orc => addDelegateTo s o orc (orc.slashAmount s.params.slashFrac) amt dep
 
+/-- the bridger index after `EditBridger`: `DelOracleAddrByBridgerAddr(oracle.GetBridger())` runs BEFORE the record's bridger
+is overwritten (regenerated order); the other way round it deletes the entry of the NEW bridger and keeps the old one -/
+def editIndex (m : Map Nat) (old b o : Nat) : Map Nat :=
+  (m.del (if editBridgerDeletesOldIndexFirst then old else b)).set b o
+
 def editBridgerStep (s : State) (o b : Nat) : State × Out :=
   match s.oracles.get o with
   | none => (s, .noOracle)
@@ -301,7 +306,7 @@ def editBridgerStep (s : State) (o b : Nat) : State × Out :=
     if (s.byBridger.get b).isSome then (s, .invalid) else
     ({ s with
         oracles := s.oracles.set o { orc with bridger := b }
-        byBridger := (s.byBridger.del orc.bridger).set b o }, .ok)
+        byBridger := editIndex s.byBridger orc.bridger b o }, .ok)
 
 /-- what a successful `UnbondedOracle` does to the store -/
 def unbondApply (s : State) (o : Nat) (orc : Oracle) : State :=
